@@ -1019,7 +1019,11 @@ class Crystal(object):
                                             +M[0,2]*(M[1,0]*M[2,1]-M[1,1]*M[2,0]))
 
         groupops = []
-        supercellvect = [np.array(nv) for nv in itertools.product(range(-1,2), repeat=self.dim)
+        # images of the lattice vectors have the length of a lattice vector: |n_d| <= |a|_max / h_d, with h_d
+        # the height of the cell along d (1 for a reduced cell, but larger for a skewed noreduce cell)
+        amax = np.sqrt(max(self.metric[d, d] for d in range(self.dim)))
+        nmax = [int(np.floor(amax * np.sqrt(np.dot(self.invlatt[d], self.invlatt[d])) + 1e-8)) for d in range(self.dim)]
+        supercellvect = [np.array(nv) for nv in itertools.product(*[range(-n, n + 1) for n in nmax])
                          if any(n != 0 for n in nv)]
         matchvect = [[u for u in supercellvect
                       if self.__isclose__(np.dot(u, np.dot(self.metric, u)),
